@@ -274,3 +274,4 @@ def run(ctx):
     _run_rules(ctx)
     from .. import boundaries
     boundaries.check(ctx, 'C02.RB', 'C02')
+    boundaries.check_amounts(ctx, 'C02.RA', 'C02')
